@@ -13,7 +13,13 @@ RULE = ('argument strings drawn per character from weighted classes (plain, ok-p
         'tilde/colon-rich strings and the weighted classes; command lines as word lists, string-form lines starting two processes, mixtures, via '
         'cmd= and cmds= of real command()/build_step() edges and local_env for tests; system stage: generated projects whose yacc steps '
         'have MIXED shapes (default two outputs, two named outputs, one named output, in drawn order), the whole argument vector of '
-        'every translator process compared with the declared one (options, --defines= of the second output, source, -o, first output)' + '; system stage: generated projects with static libraries whose link_options= are forwarded (also through libs= of static libraries) to 5-6 consumers declared one after the other - the linker process of each compared with the declared closure of exactly that target (no missing, foreign or repeated word, each archive once) -, path-valued flag words (include / library directories, words joined from a string and a file, names with # $ blank @ + { ^, global and per target, source directory named with # and $), copies / symbolic / hard links between directories in near-prefix families (data / data2, lib / lib64, a / a.b) with the copying tools recorded: what a tool is handed, read from the directory of the link, names the input (path arithmetic and the real ln + readlink -f)')
+        'every translator process compared with the declared one (options, --defines= of the second output, source, -o, first output)' + '; system stage: generated projects with static libraries whose link_options= are forwarded (also through libs= of static libraries) to 5-6 consumers declared one after the other - the linker process of each compared with the declared closure of exactly that target (no missing, foreign or repeated word, each archive once) -, path-valued flag words (include / library directories, words joined from a string and a file, names with # $ blank @ + { ^, global and per target, source directory named with # and $), copies / symbolic / hard links between directories in near-prefix families (data / data2, lib / lib64, a / a.b) with the copying tools recorded: what a tool is handed, read from the directory of the link, names the input (path arithmetic and the real ln + readlink -f)' + '; install stage: generated projects that install() a program linked '
+        'to installed shared libraries, libraries, a header file, a header directory, data files (directory= below a root, odd names) and a man '
+        'page, configured for Ninja with install directories from the command line (--prefix ... --mandir, absolute), from a toolchain file '
+        '(install_dirs() with directories RELATIVE TO ANOTHER ROOT and absolute ones) or both, DESTDIR in the environment; the install / '
+        'uninstall edges go through the reference evaluator and the real dash with doppel / patchelf / rm recorded: every file is copied to / '
+        'removed from exactly DESTDIR + the directory the configuration denotes + its declared place, the rpath is the denoted library '
+        'directory, and the real make on the Make configuration of the same project delivers the same observations; install-dirs stage (in process): the same configurations given to a real Environment (toolchain entries before finalize, command line through finalize), the REAL _add_install_paths + NinjaFile.write, tied to Ninja/InstallDirs.v (variables written in the order of InstallRoot; value of every root under where-defined evaluation) and compared with the denoted directories')
 TRUSTED = ('R model Ninja/NinjaRead.v (lexer, $in/$out escaping) + Ninja/NinjaManifest.v (manifest structure, scoping, lookup order of '
            'command_of) is TRUSTED: no ninja binary exists in this sandbox; written from the Ninja manual / manifest_parser.cc / '
            'lexer.in.cc / eval_env.cc / graph.cc / util.cc; documented deviations are listed at the top of NinjaManifest.v and guarded at run time',
@@ -738,6 +744,273 @@ def described_steps(rep, rng, idx):
     return bad
 
 
+# ----------------------------------------------------------------------------- system: install / uninstall under varied install dirs
+ROOT_ORDER = ['prefix', 'exec_prefix', 'bindir', 'libdir', 'includedir', 'datadir', 'mandir']
+ROOT_DEFAULTS = {'prefix': ('abs', '/usr/local'), 'exec_prefix': ('rel', '', 'prefix'), 'bindir': ('rel', 'bin', 'exec_prefix'),
+                 'libdir': ('rel', 'lib', 'exec_prefix'), 'includedir': ('rel', 'include', 'prefix'),
+                 'datadir': ('rel', 'share', 'prefix'), 'mandir': ('rel', 'man', 'datadir')}      # documented posix defaults
+REL_DIRS = {'exec_prefix': ['ex', 'arch/x86_64'], 'bindir': ['bin64', 'tools/bin', 'my bin'], 'libdir': ['lib64', 'lib/x86_64-linux-gnu', 'lib+x'],
+            'includedir': ['inc', 'include/p-1.0', 'in c'], 'datadir': ['share/x', 'data', 'sh are'], 'mandir': ['man', 'doc/man']}
+ABS_DIRS = {'prefix': ['/usr', '/opt/p', '/opt/my app'], 'exec_prefix': ['/usr/x86', '/opt/ex'], 'bindir': ['/opt/p/bin', '/usr/b in'],
+            'libdir': ['/usr/lib64', '/opt/p/lib/x86_64-linux-gnu'], 'includedir': ['/opt/inc', '/usr/include/p'],
+            'datadir': ['/opt/share', '/usr/share/p x'], 'mandir': ['/usr/share/man', '/opt/man']}
+
+
+def gen_install_config(rng, variant):
+    """Where the install directories come from: the command line (--prefix, --libdir, ...: absolute), a toolchain file whose
+    install_dirs() gives directories RELATIVE TO ANOTHER ROOT (Path('lib64', InstallRoot.exec_prefix)) or absolute ones, or both
+    (the command line wins). A relative directory refers to a root that precedes it in the order of InstallRoot."""
+    tc, cli = {}, {}
+    if variant in ('toolchain', 'mixed'):
+        roots = rng.sample(ROOT_ORDER[1:], rng.randint(2, 4))
+        for k, r in enumerate(sorted(roots, key=ROOT_ORDER.index)):
+            if k == 0 or rng.random() < 0.7:
+                tc[r] = ('rel', rng.choice(REL_DIRS[r]), rng.choice(ROOT_ORDER[:ROOT_ORDER.index(r)][:3] + ROOT_ORDER[:ROOT_ORDER.index(r)][-1:]))
+            else:
+                tc[r] = ('abs', rng.choice(ABS_DIRS[r]))
+        if rng.random() < 0.3:
+            tc['prefix'] = ('abs', rng.choice(ABS_DIRS['prefix']))
+    if variant in ('cli', 'mixed'):
+        for r in rng.sample(ROOT_ORDER, rng.randint(1, 3) if variant == 'cli' else 1):
+            cli[r] = ('abs', rng.choice(ABS_DIRS[r]))
+        if variant == 'cli' and rng.random() < 0.5:
+            cli['prefix'] = ('abs', rng.choice(ABS_DIRS['prefix']))
+    return {'toolchain': tc, 'cli': cli, 'destdir': rng.choice(['', '', '/stage', '/st age/1'])}
+
+
+def resolve_install_dirs(cfg):
+    """The directories the configuration denotes, computed from the configuration alone."""
+    eff = dict(ROOT_DEFAULTS)
+    eff.update(cfg['toolchain'])
+    eff.update(cfg['cli'])
+
+    def res(r):
+        v = eff[r]
+        return v[1] if v[0] == 'abs' else (res(v[2]).rstrip('/') + '/' + v[1]).rstrip('/')
+    return {r: res(r) for r in ROOT_ORDER}
+
+
+def _slashes(p):
+    import re
+    return re.sub('/+', '/', p).rstrip('/') or '/'
+
+
+def stage_w_install_dirs(rep, n):
+    """Ninja/InstallDirs.v against the real code, in process: a real Environment receives install directories the way a
+    toolchain file sets them (before finalize) and the way the command line does (finalize), the REAL _add_install_paths
+    writes them into a real NinjaFile.
+    (W) the variables written, in order, equal install_vars of the model (the order of InstallRoot);
+    (R) the text of the real NinjaFile.write goes through the reference evaluator: the value of every root equals ninja_dirs
+        of the model for the order that was written;
+    (oracle) and equals the directory the configuration denotes, computed by resolve_install_dirs from the configuration alone.
+    Returns (W/R disagreements, failing inputs)."""
+    from bfg9000.environment import Environment
+    from bfg9000.path import abspath, InstallRoot, Path, Root
+    from bfg9000.builtins import install as binstall
+    from bfg9000.backends.ninja.syntax import NinjaFile, Section
+    rng = random.Random('installdirs:%s' % rep.seed)
+    calls, impl, dis, found = [], [], [], 0
+    for k in range(n):
+        cfg = gen_install_config(rng, ['toolchain', 'cli', 'mixed', 'toolchain', 'default'][k % 5]) if k % 5 != 4 else \
+            {'toolchain': {}, 'cli': {}, 'destdir': ''}
+        env = Environment(abspath('/bfgdir'), 'ninja', None, abspath('/srcdir'), abspath('/builddir'))
+        for r, v in cfg['toolchain'].items():          # builtins/toolchain.py install_dirs(): Path.ensure(v, Root.absolute)
+            env.install_dirs[InstallRoot[r]] = Path(v[1], Root.absolute) if v[0] == 'abs' else Path(v[1], InstallRoot[v[2]])
+        env.finalize({InstallRoot[r]: abspath(v[1]) for r, v in cfg['cli'].items()}, (True, True), False)
+        nf = NinjaFile('build.bfg')
+        binstall._add_install_paths(nf, env)
+        eff = dict(ROOT_DEFAULTS)
+        eff.update(cfg['toolchain'])
+        eff.update(cfg['cli'])
+        enc = [[0, _slashes(eff[r][1])] if eff[r][0] == 'abs' else [1, ROOT_ORDER.index(eff[r][2]), eff[r][1].strip('/')] for r in ROOT_ORDER]
+        written = []
+        for name, value in nf._variables[Section.path]:
+            if name.name not in ROOT_ORDER:
+                continue
+            if isinstance(getattr(value, 'root', None), InstallRoot):
+                written.append((ROOT_ORDER.index(name.name), (1, ROOT_ORDER.index(value.root.name), value.suffix.strip('/'))))
+            else:
+                written.append((ROOT_ORDER.index(name.name), (0, _slashes(value.string()))))
+        calls.append(('ninja.install_vars', [enc]))
+        impl.append(written)
+        o = StringIO()
+        nf.write(o)
+        vals = ninjaparse.parse(o.getvalue()).vars
+        got = [_slashes(vals.get(r, '')) for r in ROOT_ORDER]
+        calls.append(('ninja.install_dirs', [[i for i, _ in written], enc]))
+        impl.append(got)
+        want = resolve_install_dirs(cfg)
+        rep.case('instdirs:%r' % (sorted(cfg.items()),), bool(cfg['toolchain'] or cfg['cli']))
+        rep.count('W:install-dirs:%d relative to another root, %d absolute, %d from the command line' % (
+            sum(1 for v in cfg['toolchain'].values() if v[0] == 'rel'), sum(1 for v in cfg['toolchain'].values() if v[0] == 'abs'), len(cfg['cli'])))
+        if got != [_slashes(want[r]) for r in ROOT_ORDER] and found < 5:
+            found += bool(rep.fail('ninja backend: install directories %r are written as the file-level variables %r, which Ninja evaluates to %r; '
+                                   'the configuration denotes %r' % ({k_: cfg[k_] for k_ in ('toolchain', 'cli')},
+                                                                     [(ROOT_ORDER[i], v) for i, v in written], dict(zip(ROOT_ORDER, got)), want),
+                                   {'channel': 'install-dirs', 'install_dirs_config': cfg, 'written': written, 'evaluated': got, 'denoted': want,
+                                    'text': o.getvalue()}))
+
+    def dec(name, r):
+        if name == 'ninja.install_vars':
+            return [(x[0], (0, d_str(x[1][1])) if x[1][0] == 0 else (1, x[1][1], d_str(x[1][2]))) for x in r]
+        return [d_str(x) or '/' for x in r]
+    for i, c, iv, mv in common.compare_model(rep, 'W:real _add_install_paths == install_vars; R: reference evaluator == ninja_dirs', calls, impl, dec, vm_limit=40):
+        dis.append((i, c, iv, mv))
+    rep.stage('W/R:install directories as file-level variables', configurations=n, disagreements=len(dis), failing_inputs=found)
+    return dis, found
+
+
+def install_records(recs, cwd):
+    """Recorder records of doppel / patchelf / rm -> canonical observations:
+    ('copy', absolute source, destination file), ('rpath', value, file), ('remove', file)"""
+    import os
+    out = []
+    for r in recs:
+        tool, a = os.path.basename(r['argv0'] or ''), list(r['argv'])
+        if tool == 'doppel':
+            pos, into, base, i = [], False, cwd, 0
+            while i < len(a):
+                if a[i] in ('-m', '-C') and i + 1 < len(a):
+                    if a[i] == '-C':
+                        base = os.path.join(cwd, a[i + 1])
+                    i += 2
+                    continue
+                if a[i].startswith('-') and len(a[i]) > 1:
+                    into = into or 'i' in a[i]
+                else:
+                    pos.append(a[i])
+                i += 1
+            for s in pos[:-1]:
+                out.append(('copy', os.path.normpath(os.path.join(base, s)), _slashes(pos[-1] + '/' + s) if into else _slashes(pos[-1])))
+            if len(pos) < 2:
+                out.append(('copy?', tuple(a)))
+        elif tool == 'patchelf':
+            out.append(('rpath', ':'.join(_slashes(x) for x in a[1].split(':')), _slashes(a[2])) if len(a) == 3 and a[0] == '--set-rpath'
+                       else ('patchelf?', tuple(a)))
+        elif tool == 'rm':
+            out += [('remove', _slashes(x)) for x in a if not x.startswith('-')]
+    return out
+
+
+def installed_steps(rep, seed, idx, variant):
+    """Generated project that install()s a program (linked to an installed shared library), libraries, a header file, a header
+    directory, data files (directory= below the data root, odd names) and a man page, configured by the real bfg9000 for Ninja
+    under a generated install-directory configuration (see gen_install_config; DESTDIR from the environment). The install and
+    uninstall edges are evaluated by the reference Ninja evaluator and run by the real dash with recorders named doppel /
+    patchelf / rm first on PATH. Oracle (model-independent): every file is copied to / removed from exactly DESTDIR + the
+    directory the CONFIGURATION denotes for its kind + its declared place, the run-time path given to patchelf is the library
+    directory the configuration denotes; and the same project configured for Make and run by the real make delivers the same
+    observations."""
+    import os
+    from . import project
+    rng = random.Random('install:%s:%d' % (seed, idx))
+    cfg = gen_install_config(rng, variant)
+    dirs = resolve_install_dirs(cfg)
+    dd = cfg['destdir']
+    nlib = rng.randint(1, 2)
+    files = {'main.c': 'int main(void) { return 0; }\n', 'inc/api.h': '#define A 1\n', 'inc/more.h': '#define B 1\n',
+             'inc/sub/deep.h': '#define C 1\n', 'man/prog.1': '.TH PROG 1\n'}
+    lines = ["project('p', '1.0')"]
+    exp = []         # (kind, source relative to ('b' build / 's' source dir), destination)
+    for i in range(nlib):
+        files['l%d.c' % i] = 'int l%d(void) { return %d; }\n' % (i, i)
+        lines.append("lib%d = shared_library('sh%d', files=['l%d.c'])" % (i, i, i))
+        exp.append(('b', 'libsh%d.so' % i, dirs['libdir'] + '/libsh%d.so' % i))
+    files['st.c'] = 'int st(void) { return 1; }\n'
+    lines.append("stat = static_library('st', files=['st.c'])")
+    exp.append(('b', 'libst.a', dirs['libdir'] + '/libst.a'))
+    pname = rng.choice(['prog', 'tools/prog', 'pr+og'])
+    lines.append("prog = executable(%r, files=['main.c'], libs=[%s, stat])" % (pname, ', '.join('lib%d' % i for i in range(nlib))))
+    exp.append(('b', pname, dirs['bindir'] + '/' + pname))
+    lines.append("hdr = header_file('inc/api.h')")
+    exp.append(('s', 'inc/api.h', dirs['includedir'] + '/api.h'))
+    lines.append("mp = man_page('man/prog.1', compress=False)")
+    exp.append(('s', 'man/prog.1', dirs['mandir'] + '/man1/prog.1'))
+    order = ['prog', 'stat', 'hdr', 'mp'] + ['lib%d' % i for i in range(nlib)]
+    rng.shuffle(order)
+    lines.append('install(%s)' % ', '.join(order))
+    for i in range(rng.randint(1, 2)):
+        nm = odd_file_name(rng, 'da%d' % i) if rng.random() < 0.6 else 'da%d.txt' % i
+        sub = rng.choice(['pkg', 'p k/g', 'p$x'])
+        root = rng.choice(['datadir', 'datadir', 'prefix', 'libdir'])
+        files[nm] = 'x\n'
+        lines.append("install(generic_file(%r), directory=Path(%r, InstallRoot.%s))" % (nm, sub, root))
+        exp.append(('s', nm, dirs[root] + '/' + sub + '/' + nm))
+    if rng.random() < 0.6:
+        lines.append("install(header_directory('inc', include='*.h'))")
+        exp += [('s', 'inc/' + h, dirs['includedir'] + '/' + h) for h in ('api.h', 'more.h')]
+    files['build.bfg'] = '\n'.join(lines) + '\n'
+
+    def tcval(v):
+        return repr(v[1]) if v[0] == 'abs' else 'Path(%r, InstallRoot.%s)' % (v[1], v[2])
+    args = ['--%s=%s' % (r.replace('_', '-'), v[1]) for r, v in cfg['cli'].items()]
+    bad = 0
+    with project.Scratch('c02i') as sc:
+        project.write_tree(sc.src, files)
+        if cfg['toolchain']:
+            tcf = os.path.join(sc.root, 'toolchain.bfg')
+            with open(tcf, 'w') as f:
+                f.write('install_dirs(%s)\n' % ', '.join('%s=%s' % (r, tcval(v)) for r, v in cfg['toolchain'].items()))
+            args += ['--toolchain', tcf]
+        stub = os.path.join(sc.root, 'stubs')
+        os.makedirs(stub)
+        for t in ('doppel', 'patchelf', 'rm'):
+            os.symlink(shtools.ARGVREC, os.path.join(stub, t))
+        path = stub + ':' + os.path.join(common.VERIF, 'harness', 'stubs') + ':/venv/bin:/usr/bin:/bin'
+        want = sorted(set(('copy', os.path.normpath(os.path.join(sc.build if w == 'b' else sc.src, s)), _slashes(dd + d)) for w, s, d in exp))
+        want_rm = sorted(set(('remove', _slashes(dd + d)) for _, _, d in exp))
+        want_rp = [('rpath', _slashes(dirs['libdir']), _slashes(dd + dirs['bindir'] + '/' + pname))]
+        info = {'channel': 'install', 'script': files['build.bfg'], 'install_dirs_config': cfg, 'configure_args': args,
+                'directories_denoted': dirs}
+        obs = {}
+        for backend in ('ninja', 'make'):
+            bdir = sc.build if backend == 'ninja' else sc.build + '_mk'
+            rc, out = project.configure(sc.src, bdir, backend, extra_args=args, extra_env={'DESTDIR': dd} if dd else None)
+            if rc != 0:
+                rep.count('install:configure_failed:' + backend)
+                rep.sample({'configure_failed': out[-300:], 'script': files['build.bfg'], 'args': args})
+                bad += rep.fail('%s backend: configure of a project with install() fails under the install-directory configuration %r: %s' % (
+                    backend, cfg, out[-300:]), dict(info, error=out[-600:]))
+                return bad
+            for target in ('install', 'uninstall'):
+                err = ''
+                if backend == 'ninja':
+                    m = ninjaparse.parse(project.read(bdir, 'build.ninja'))
+                    if m.edge_for(target) is None:
+                        recs, err = [], 'no edge produces %r' % target
+                    else:
+                        rc_, recs, err = shtools.dash_run(m.command(target), cwd=bdir, extra_env={'ARGVREC_TOUCH': '', 'PATH': path})
+                else:
+                    rc_, recs, err = project.make(bdir, [target], args=['-o', 'all'], extra_env={'ARGVREC_TOUCH': '', 'PATH': path})
+                    if rc_ != 0 and len(sc.build + '_mk') != len(sc.build):
+                        err = err.replace(sc.build + '_mk', sc.build)
+                    # the two build directories differ in name only
+                    recs = [dict(r, argv=[x.replace(sc.build + '_mk', sc.build) for x in r['argv']]) for r in recs]
+                got = install_records(recs, sc.build)
+                obs[backend, target] = (sorted(set(got)), err)
+        for target in ('install', 'uninstall'):
+            got, err = obs['ninja', target]
+            expected = sorted(want + want_rp) if target == 'install' else want_rm
+            rep.case('sysi:%s:%s:%r' % (variant, target, sorted(cfg.items())), True)
+            rep.count('install:%s:%s' % (variant, target))
+            if got != expected:
+                miss, extra = [x for x in expected if x not in got], [x for x in got if x not in expected]
+                bad += rep.fail('ninja backend: %s of a project configured with install dirs %r (denoting %r, DESTDIR %r): declared but not '
+                                'delivered %r; delivered but not declared %r (%s)' % (
+                                    target, {k: cfg[k] for k in ('toolchain', 'cli')}, dirs, dd, miss[:4], extra[:4], err[:120]),
+                                dict(info, target=target, missing=miss, unexpected=extra, error=err[-300:]))
+            elif obs['make', target][0] != got:
+                mk = obs['make', target][0]
+                bad += rep.fail('ninja and make backends deliver different %s commands for install dirs %r: only ninja %r, only make %r (%s)' % (
+                    target, {k: cfg[k] for k in ('toolchain', 'cli')}, [x for x in got if x not in mk][:4], [x for x in mk if x not in got][:4],
+                    obs['make', target][1][:120]), dict(info, target=target, ninja=got, make=mk))
+        for r, v in list(cfg['toolchain'].items()) + list(cfg['cli'].items()):
+            rep.count('install:dir %s given %s' % ('on the command line' if r in cfg['cli'] and cfg['cli'][r] is v else 'by the toolchain file',
+                                                  'absolute' if v[0] == 'abs' else 'relative to another root'))
+    rep.traces += 1
+    return bad
+
+
 def run(rep):
     global _CWD
     import shutil
@@ -763,12 +1036,17 @@ def _run(rep):
     dis3, found3 = stage_t_env_ninja(rep, rng, (1500 if thorough else 250) * (5 if dis else 1))
     dis = dis + dis3
     found += found3
+    dis4, found4 = stage_w_install_dirs(rep, 400 if thorough else 80)
+    dis = dis + dis4
+    found += found4
     found += stage_oracle_ninja(rep, rng, (500 if thorough else 60) * (5 if dis else 1))
     from . import c06
     for i in range(12 if thorough else 2):
         found += c06.declared_vs_delivered(rep, rng, i, 'ninja', odd_names=(i % 2 == 1))
     for i in range(10 if thorough else 3):
         found += described_steps(rep, rng, i)
+    for i in range(12 if thorough else 3):
+        found += installed_steps(rep, rep.seed, i, ['toolchain', 'cli', 'mixed'][i % 3])
     rep.stage('system:configure->evaluator->dash->recorder', projects=rep.traces)
     rep.stage('R:parse_manifest == Python splitter (every manifest seen)', **ninjaparse.STATS)
     if ninjaparse.STATS['disagreements']:
